@@ -71,8 +71,8 @@ Proof. split; vm_compute; reflexivity. Qed.
 Lemma truncateCmp_real_refuted :
   exists f, wf f = true /\ exists w, In w (warnings (run_truncateCmp true f)) /\ is_real w = false.
 Proof. refute_real ns_cast_pkgfunc. Qed.
-Lemma nilValReturn_real_refuted :
-  exists f, wf f = true /\ exists w, In w (warnings (run_nilValReturn f)) /\ is_real w = false.
+Lemma nilValReturn_prefix_real_refuted :
+  exists f, wf f = true /\ exists w, In w (warnings (run_nilValReturn_prefix f)) /\ is_real w = false.
 Proof. refute_real ns_nil_local. Qed.
 
 (* exitAfterDefer recognises log.Fatal* / os.Exit by spelling: a local variable `os` with an Exit field is reported *)
@@ -88,4 +88,8 @@ Proof. split; vm_compute; reflexivity. Qed.
 (* the hypothesis of C01_unlambda_total_partial holds on a converted real file *)
 Lemma unlambda_hypothesis_satisfiable :
   wf w_bare_return = true /\ forallb g_unlambda_arity (all_nodes w_bare_return) = true.
+Proof. split; vm_compute; reflexivity. Qed.
+
+(* the fixed nilValReturn says nothing about a variable named nil *)
+Lemma nilValReturn_silent_on_namesake : wf ns_nil_local = true /\ run_nilValReturn ns_nil_local = Ok [].
 Proof. split; vm_compute; reflexivity. Qed.
